@@ -116,6 +116,17 @@ func features() []feature {
 		d.typ("chatEmpty#ID id:long = Chat;")
 		d.fn("getChat#ID = Chat;")
 	})
+	add("snake-ctor-named-as-type(multi)", func(d *schemaDoc) {
+		d.typ("bad_msg_note#ID id:int = BadMsgNote;")
+		d.typ("bad_server_note#ID id:long = BadMsgNote;")
+		d.fn("getNote#ID = BadMsgNote;")
+	})
+	add("snake-ctor-named-as-type(single)", func(d *schemaDoc) { d.typ("new_session_made#ID id:int = NewSessionMade;"); d.fn("getMade#ID = NewSessionMade;") })
+	add("namespaced-ctor-named-as-type(multi)", func(d *schemaDoc) {
+		d.typ("store.item#ID id:int = store.Item;")
+		d.typ("store.itemEmpty#ID = store.Item;")
+		d.fn("store.getItem#ID = store.Item;")
+	})
 	for _, p := range []string{"int", "long", "double", "string", "bytes", "Bool"} {
 		p := p
 		add("param:"+p, func(d *schemaDoc) { d.typ("holder%s#ID a:%s b:int = Holder%s;", strings.Title(p), p, strings.Title(p)) })
